@@ -11,6 +11,9 @@ package main
 //	r      redirect: true (the gun's client follows redirects; the target's 301 answers point at followPath)
 //	c      dial: {dns-cache: false}: no pre-resolve of a host-name target, no DNS cache; the dialer resolves on every dial
 //	2      gun type http2 instead of http (TLS targets only; the target then speaks h2)
+//	k / K  gun type connect instead of http (round 7): the gun's target is a tunnel front (tunnel.go) that answers the CONNECT and
+//	       pipes to the recording target; K = with `connect-ssl: true` (TLS between the gun and the front)
+//	T<ms>  dial: {timeout: <ms>ms} (round 7): bounds the dial only; an established connection must outlive it
 //
 // None of them may change what reaches the target (theorems C09_gun_options_invisible, C09_body_any_gun_options) nor the
 // connection count.
@@ -38,6 +41,9 @@ type gunOpts struct {
 	redirect   bool
 	h2         bool
 	noDNSCache bool
+	connect    bool // gun type connect
+	connectSSL bool // connect-ssl: true
+	dialMs     int  // dial.timeout in ms, 0 = not configured (default 3 s)
 }
 
 // parseKA: the keep-alive field with its option suffix
@@ -70,6 +76,16 @@ func parseKA(field string) (ka bool, o gunOpts, ok bool) {
 			o.noDNSCache = true
 		case t == "2":
 			o.h2 = true
+		case t == "k":
+			o.connect = true
+		case t == "K":
+			o.connect, o.connectSSL = true, true
+		case strings.HasPrefix(t, "T"):
+			n, err := strconv.Atoi(strings.TrimPrefix(t, "T"))
+			if err != nil || n < 1 {
+				return false, o, false
+			}
+			o.dialMs = n
 		case strings.HasPrefix(t, "g"):
 			s := strings.TrimPrefix(t, "g")
 			if strings.HasSuffix(s, "n") {
@@ -101,11 +117,24 @@ func (o gunOpts) apply(gun map[string]any) {
 	if o.redirect {
 		gun["redirect"] = true
 	}
+	dial := map[string]any{}
 	if o.noDNSCache {
-		gun["dial"] = map[string]any{"dns-cache": false}
+		dial["dns-cache"] = false
+	}
+	if o.dialMs > 0 {
+		dial["timeout"] = strconv.Itoa(o.dialMs) + "ms"
+	}
+	if len(dial) > 0 {
+		gun["dial"] = dial
 	}
 	if o.h2 {
 		gun["type"] = "http2"
+	}
+	if o.connect {
+		gun["type"] = "connect"
+		if o.connectSSL {
+			gun["connect-ssl"] = true
+		}
 	}
 }
 
